@@ -502,6 +502,9 @@ Lemma frame12_none id (J : list (list val)) oJ J' :
   frame [] (fun _ : mtag => False) J oJ J' -> frame [] (fun t : mtag => t = (id, 1) \/ t = (id, 2)) J oJ J'.
 Proof. intros F. eapply frame_weaken; [|exact F]. intros t []. Qed.
 
+Lemma upd_nth_nth_same {A} (d : A) : forall f l, upd_nth f (nth f l d) l = l.
+Proof. intros f l. revert f. induction l as [|x l IH]; destruct f; simpl; auto. now rewrite IH. Qed.
+
 Lemma apply_setter_sim grow H ow id o s H' o' :
   lens H ow -> obj_ok H ow id o -> setter_nojar s ->
   apply_setter grow H o s = (H', o') ->
@@ -759,6 +762,27 @@ Proof.
       destruct (e_dopt (o_ext o)) as [a0|] eqn:EDo; [|reflexivity]. simpl in X1.
       pose proof (nth_error_lt _ _ _ X1) as Ha. rewrite Lj in Ha. simpl.
       destruct (Nat.eqb_spec a0 (length (jars H))); [lia|reflexivity].
+  - (* SMapTouch *)
+    destruct (nth f (o_mp o) None) as [a|] eqn:En.
+    + injection Hs as <- <-. eapply sim_res_eq; [now apply sim_res_refl|].
+      cbn [vapply]. rewrite upd_nth_nth_same. reflexivity.
+    + injection Hs as <- <-.
+      assert (LA : length (owA ow ++ []) = length (arrs H)) by now rewrite app_nil_r.
+      assert (LM : length (owM ow ++ [(id, f)]) = length (maps H ++ [[]])) by (rewrite !app_length, Lm; reflexivity).
+      assert (OK : hm_ok (arrs H) (maps H ++ [[]]) (owA ow ++ []) (owM ow ++ [(id, f)]) (id, f) (Some (length (maps H)))).
+      { change (nth_error (owM ow ++ [(id, f)]) (length (maps H)) = Some (id, f) /\
+                ent_ok (arrs H) (owA ow ++ []) (id, f) (nth (length (maps H)) (maps H ++ [[]]) [])).
+        rewrite <- Lm at 1. rewrite nth_error_app_new, nth_app_new. split; auto. split; [constructor|intros k s []]. }
+      assert (RD : mp_read (arrs H) (maps H ++ [[]]) (Some (length (maps H))) = []).
+      { unfold mp_read, mp_cell. now rewrite nth_app_new. }
+      pose proof (sim_mp_field H ow id o f 0 (arrs H) (maps H ++ [[]]) (Some (length (maps H))) [] [(id, f)] [] L O LA LM OK RD
+                    (frame_refl _ _ _ _) (frame_app _ _ _ _ _ Lm)) as K.
+      eapply sim_res_eq; [eapply sim_intro; exact K|].
+      cbn [vapply]. f_equal. f_equal. cbn [abs_obj v_mp]. rewrite mp_read_nth, En. reflexivity.
+  - (* SJarNil *)
+    injection Hs as <- <-. exists [], [], [], [].
+    split; [now apply lens_ext_nil|]. split; [apply idframe_refl|]. split; [|reflexivity].
+    constructor; unfold ext; cbn [owA owM owR owJ set_jar o_sl o_mp o_rt o_jar o_fact o_ext]; rewrite ?app_nil_r; auto. exact I.
 Qed.
 
 (* ================= Clone, R(), C() ================= *)
